@@ -278,6 +278,18 @@ def Case.specFindings (c : Case) : List Finding := Id.run do
         let missing := alone.filter (fun x => !inSet.contains x)
         out := out ++ [⟨"member_process_behaviour_differs", s!"{l}: only in the set {extra.take 4}, only alone {missing.take 4} "
           ++ s!"({inSet.length} traces in the set, {alone.length} alone)"⟩]
+  -- a throw is a token passing the throw event: every token that reaches one passes it (throws, moves on), in the
+  -- set and alone
+  if !panicked then
+    for (_, n, k) in c.nodes do
+      if k == "intermediateThrowEvent" then
+        for l in labs do
+          if c.hasCease l && pidOfLabel l == c.pidOfNode n then
+            let mine := (c.memberLines.filter (·.1 == l)).map (·.2)
+            let visits := (mine.filter (· == s!"visit {n}")).length
+            let passes := (mine.filter (·.startsWith s!"flow {n} ")).length
+            if passes < visits then
+              out := out ++ [⟨"throw_event_swallows_token", s!"{visits} token(s) reached the throw event {n} of {l}, {passes} passed it (thrown); the others were consumed there"⟩]
   for n in c.notes do
     out := out ++ [⟨(if n == "noquiesce" then "engine_does_not_quiesce" else if n == "subtimeout" then "engine_hangs"
                      else if n.startsWith "startall" then n else "engine_call_blocked"), n⟩]
